@@ -48,7 +48,7 @@ func checkRegistry(s *Sess, where string) bool {
 
 func c16Keys(r *Rng, n int) []string {
 	special := []string{"R0", "R1", "R2", "X1", "X4", "X7", "N0", "N1", "N2", "N3", "N4", "N5", "N6", "N7", "N8",
-		"S0", "S1", "S2", "S3", "S4", "S5", "S6", "S7", "S8", "S9", "S10", "S11"}
+		"S0", "S1", "S2", "S3", "S4", "S5", "S6", "S7", "S8", "S9", "S10", "S11", "Q0", "Q1", "Q2", "Q3"}
 	Shuffle(r, special)
 	keys := []string{}
 	base := 3000 + r.Intn(500)
@@ -180,11 +180,22 @@ func caseC16(c *Ctx) {
 			if c.Case%2 == 0 {
 				extra = TypeOfKey(fmt.Sprintf("X%d", 9500+c.R.Intn(100)))
 			}
-			q := s.W.Query(ecs.All())
-			if !mustPanic(func() { ecs.TypeID(s.W, extra) }) {
-				s.fail("registry.locked", "registering a new type in a locked world did not panic")
+			// locked by one query, or by many at a time (up to every lock there is)
+			depth := Pick(c.R, []int{1, 1, 1, 2, 17, 63, 64, 65, 127, 128, 129, 194, 255, 256})
+			if depth > limit {
+				depth = limit
 			}
-			q.Close()
+			qs := make([]ecs.Query, depth)
+			for i := range qs {
+				qs[i] = s.W.Query(ecs.All())
+			}
+			if !mustPanic(func() { ecs.TypeID(s.W, extra) }) {
+				s.fail("registry.locked", "registering a new type in a world locked by %d open queries did not panic", depth)
+			}
+			for i := range qs {
+				qs[i].Close()
+			}
+			s.Cov.N[fmt.Sprintf("locked_registration_depth_%d", depth)]++
 			if !s.Failed() && s.PublicSnapshot() != before {
 				s.fail("registry.locked.changed", "the rejected registration in a locked world changed the world: %s", firstDiff(before, s.PublicSnapshot()))
 			}
